@@ -587,8 +587,10 @@ func parseType(ctx context.Context, t *parser.Type, tree *parser.Thrift, cache c
 		ty.elem, err = parseType(ctx, t.ValueType, tree, cache, nextRecursionDepth, opts, nextAnns, parseTarget)
 		return ty, err
 	default:
-		// check the cache
-		if ty, ok := cache[t.Name]; ok && ty.parseTarget == parseTarget {
+		// check the cache. Type names are only unique within one file, and one cache serves the functions of
+		// all (inherited) services, which may come from different files
+		cacheKey := tree.Filename + ":" + t.Name
+		if ty, ok := cache[cacheKey]; ok && ty.parseTarget == parseTarget {
 			return ty.desc, nil
 		}
 
@@ -671,7 +673,7 @@ func parseType(ctx context.Context, t *parser.Type, tree *parser.Thrift, cache c
 			}
 		}
 		if st := ty.Struct(); st != nil {
-			cache[t.Name] = &compilingInstance{parseTarget: parseTarget, desc: ty}
+			cache[cacheKey] = &compilingInstance{parseTarget: parseTarget, desc: ty}
 		}
 
 		// parse fields
@@ -688,7 +690,7 @@ func parseType(ctx context.Context, t *parser.Type, tree *parser.Thrift, cache c
 			}
 			// cannot cache the request base
 			if isRequestBase {
-				delete(cache, t.Name)
+				delete(cache, cacheKey)
 			}
 			if isRequestBase || isResponseBase {
 				ty.struc.baseID = FieldID(field.ID)
